@@ -783,6 +783,53 @@ func mayReturnNilError(fn *FuncNode, ret *ast.ReturnStmt) bool {
 	return !certainErr(fn, last, ret)
 }
 
+// returnsErrorOf: the exit returns the variable the call's error was bound to, the call
+// precedes it on every path and nothing else is stored in the variable in between
+// ("err = f(); return err").
+func (c *FuncCFG) returnsErrorOf(call *ast.CallExpr, ex Exit) bool {
+	errObj := errVarOfCall(c.Fn, call)
+	if errObj == nil || ex.Return == nil || len(ex.Return.Results) == 0 {
+		return false
+	}
+	if objOf(c.Fn, ex.Return.Results[len(ex.Return.Results)-1]) != errObj {
+		return false
+	}
+	hasCall := func(n ast.Node) bool { return contains(n, call) }
+	if _, vis := c.ReachAvoiding([]Point{c.Entry()}, nil, hasCall); vis[ex.P] {
+		return false
+	}
+	cp, ok := c.Locate(call)
+	if !ok {
+		return false
+	}
+	_, after := c.ReachAvoiding([]Point{cp}, nil, func(ast.Node) bool { return false })
+	for _, rp := range c.NodesWhere(func(n ast.Node) bool {
+		if contains(n, call) {
+			return false
+		}
+		hit := false
+		inspectNoLit(n, func(x ast.Node) bool {
+			if as, ok := x.(*ast.AssignStmt); ok {
+				for _, l := range as.Lhs {
+					if objOf(c.Fn, l) == errObj {
+						hit = true
+					}
+				}
+			}
+			return true
+		})
+		return hit
+	}) {
+		if !after[rp] {
+			continue
+		}
+		if _, v2 := c.ReachAvoiding([]Point{rp}, nil, hasCall); v2[ex.P] {
+			return false
+		}
+	}
+	return true
+}
+
 // succeedsOnlyAfter reports whether function h can return a nil error only after its
 // call tc succeeded: every exit either returns tc's own result, returns a certain error,
 // or is dominated by the nil edge of tc's error.
@@ -797,6 +844,9 @@ func succeedsOnlyAfter(p *Prog, h *FuncNode, tc *ast.CallExpr) bool {
 		}
 		n := len(ex.Return.Results)
 		if n > 0 && certainErr(h, ex.Return.Results[n-1], ex.Return) {
+			continue
+		}
+		if n > 0 && c.returnsErrorOf(tc, ex) {
 			continue
 		}
 		if pth, _ := c.succeededBefore(tc, ex.P); pth != nil {
